@@ -280,19 +280,20 @@ def r4_utf16(ctx) -> None:
         if f is None:
             raise AnalysisError(f"anchor vanished: {M}.{cn}.modify")
         loc = f.loc
+        wq = f"{M}.{cn}.modify"  # reported under the modifier class the rule writer sees, wherever modify() is implemented
         enc = lambda t: t.encode(codec).decode("utf-8")  # noqa: E731
         pre = ["\ufeff"] if bom else []
         # text whose UTF-16 bytes are valid UTF-8 is re-encoded part by part; special parts stay where they are
         kind, got = modifier_outcome(ctx, cn, ["ab", WM, "c"])
         want = pre + [enc("ab"), WM, enc("c")]
         if (kind, got) == ("parts", want):
-            r.ok("C04.R4", f.qual, f"encodes string parts with {codec} (re-decoded as UTF-8 text), other parts pass through" + ("; BOM is the first part" if bom else ""), loc)
+            r.ok("C04.R4", wq, f"encodes string parts with {codec} (re-decoded as UTF-8 text), other parts pass through" + ("; BOM is the first part" if bom else ""), loc)
         elif kind == "parts" and bom and got and got[0] != "\ufeff" and [x for x in got if x != "\ufeff"] == want[1:]:
-            r.violation("C04.R4", f.qual, f"modify(['ab', *, 'c']) = {got!r}", "utf16 must prepend the byte order mark before any payload part", loc)
+            r.violation("C04.R4", wq, f"modify(['ab', *, 'c']) = {got!r}", "utf16 must prepend the byte order mark before any payload part", loc)
         elif kind == "parts" and not bom and "\ufeff" in got:
-            r.violation("C04.R4", f.qual, "'\\ufeff'", f"{cn} must not add a byte order mark", loc)
+            r.violation("C04.R4", wq, "'\\ufeff'", f"{cn} must not add a byte order mark", loc)
         else:
-            r.violation("C04.R4", f.qual, f"modify(['ab', *, 'c']) → {kind} {got!r}", f"specified {want!r}: {cn} must encode string parts with {codec}; the encode/decode round trip *is* the encoding (wildcards pass through)", loc)
+            r.violation("C04.R4", wq, f"modify(['ab', *, 'c']) → {kind} {got!r}", f"specified {want!r}: {cn} must encode string parts with {codec}; the encode/decode round trip *is* the encoding (wildcards pass through)", loc)
         # a character whose UTF-16 bytes happen to be valid UTF-8 comes out as those bytes (U+0141: 41 01), and a second
         # value gets the same treatment as the first (no state kept between calls)
         state: dict = {}
@@ -300,27 +301,27 @@ def r4_utf16(ctx) -> None:
         k2, g2 = modifier_outcome(ctx, cn, ["\u0141b"], class_state=state)
         want2 = pre + [enc("\u0141b")]
         if (k1, g1) == ("parts", want2) and (k2, g2) == ("parts", want2):
-            r.ok("C04.R4", f.qual, "the re-decoded text itself is the new part (U+0141 → 41 01); a second call gives the same", loc)
+            r.ok("C04.R4", wq, "the re-decoded text itself is the new part (U+0141 → 41 01); a second call gives the same", loc)
         elif (k1, g1) == ("parts", want2):
-            r.violation("C04.R4", f.qual, f"second modify(['\\u0141b']) = {g2!r}", f"specified {want2!r} as for the first call: parts accumulate in an object shared between calls" + ("; utf16 must prepend the byte order mark exactly once, before any payload part" if bom else ""), loc)
+            r.violation("C04.R4", wq, f"second modify(['\\u0141b']) = {g2!r}", f"specified {want2!r} as for the first call: parts accumulate in an object shared between calls" + ("; utf16 must prepend the byte order mark exactly once, before any payload part" if bom else ""), loc)
         else:
-            r.violation("C04.R4", f.qual, f"modify(['\\u0141b']) → {k1} {g1!r}", f"specified {want2!r}: the encode/decode round trip is only used as a test and the part is built some other way: the round trip *is* the encoding (it also rejects what it cannot represent), a hand-built interleaving accepts characters whose UTF-16 bytes happen to be valid UTF-8 and emits bytes that are not UTF-16", loc)
+            r.violation("C04.R4", wq, f"modify(['\\u0141b']) → {k1} {g1!r}", f"specified {want2!r}: the encode/decode round trip is only used as a test and the part is built some other way: the round trip *is* the encoding (it also rejects what it cannot represent), a hand-built interleaving accepts characters whose UTF-16 bytes happen to be valid UTF-8 and emits bytes that are not UTF-16", loc)
         # what the trick cannot represent is refused with a Sigma error: undecodable byte sequences and code points without encoding
         for what, text in (("a character whose UTF-16 bytes are not valid UTF-8", "\u00e9"), ("a character whose UTF-16 bytes are not valid UTF-8 (second part)", "\u0394x")):
             kind, got = modifier_outcome(ctx, cn, ["ok", text])
             if kind == "refused":
-                r.ok("C04.R4", f.qual, f"{what} ({text!r}) is refused with SigmaValueError", loc)
+                r.ok("C04.R4", wq, f"{what} ({text!r}) is refused with SigmaValueError", loc)
             else:
-                r.violation("C04.R4", f.qual, f"modify(['ok', {text!r}]) → {kind} {got!r}", "the re-decoding step must be guarded so that undecodable byte sequences are rejected with SigmaValueError (not UnicodeDecodeError, not silently altered); a hand-built interleaving accepts characters whose UTF-16 bytes happen to be valid UTF-8 and emits bytes that are not UTF-16", loc)
+                r.violation("C04.R4", wq, f"modify(['ok', {text!r}]) → {kind} {got!r}", "the re-decoding step must be guarded so that undecodable byte sequences are rejected with SigmaValueError (not UnicodeDecodeError, not silently altered); a hand-built interleaving accepts characters whose UTF-16 bytes happen to be valid UTF-8 and emits bytes that are not UTF-16", loc)
         kind, got = modifier_outcome(ctx, cn, ["a\udc80"])
         if kind == "refused":
-            r.ok("C04.R4", f.qual, "a lone surrogate (no UTF-16 encoding) is refused with SigmaValueError", loc)
+            r.ok("C04.R4", wq, "a lone surrogate (no UTF-16 encoding) is refused with SigmaValueError", loc)
         else:
-            r.violation("C04.R4", f.qual, f"modify(['a\\udc80']) → {kind} {got!r} [UnicodeEncodeError]", "the encode step itself fails for surrogate code points (YAML \"\\uD83D\"): it must end in SigmaValueError, not in a non-Sigma exception, and must not be let through by an error handler of encode() — with the UTF-8 re-decoding trick D8..DF 80..BF is even valid, so `'\\udc80'` comes out as another character", loc)
+            r.violation("C04.R4", wq, f"modify(['a\\udc80']) → {kind} {got!r} [UnicodeEncodeError]", "the encode step itself fails for surrogate code points (YAML \"\\uD83D\"): it must end in SigmaValueError, not in a non-Sigma exception, and must not be let through by an error handler of encode() — with the UTF-8 re-decoding trick D8..DF 80..BF is even valid, so `'\\udc80'` comes out as another character", loc)
         kind, got = modifier_outcome(ctx, cn, ["ab"])
         if bom and kind == "parts" and got and got[0] == "\ufeff":
             # the BOM is stored as the *character* U+FEFF: bytes() of the value give its UTF-8 form EF BB BF, not FF FE
-            r.violation("C04.R4", f.qual, "BOM stored as character U+FEFF",
+            r.violation("C04.R4", wq, "BOM stored as character U+FEFF",
                         "the value's bytes are produced by UTF-8 encoding the parts; U+FEFF encodes to EF BB BF, so utf16|base64 does not start with the UTF-16LE BOM bytes FF FE "
                         "(the re-decoding trick cannot represent FF FE, which is not valid UTF-8)", loc)
     r.floor("C04.R4", 12)
